@@ -599,6 +599,14 @@ def rule_list_ops(prog, rep: Report, cf: CacheFacts, rule: str):
                 used.append(c.func.attr)
     for name in used:
         m = cf.lf.lst.methods.get(name)
+        if m is not None and name not in c08_shape.SPECS and not any(
+                (isinstance(n, (ast.Attribute, ast.Subscript)) and isinstance(n.ctx, (ast.Store, ast.Del))) or isinstance(n, ast.AugAssign)
+                or (isinstance(n, ast.Call) and isinstance(n.func, ast.Attribute) and isinstance(n.func.value, ast.Name)
+                    and n.func.value.id == m.self_name and n.func.attr in c08_shape.SPECS)
+                for n in ast.walk(m.node)):
+            # an observer (walks the links, writes nothing, calls no mutator of the list): the shape is what it was
+            rep.ok(rule, m, f"listop:{name}", f"{name} only reads the list: no field of the list or of a node is written")
+            continue
         if m is None or name not in c08_shape.SPECS:
             rep.unrec(rule, (cf.cls.relpath, f"{cf.cls.short}->{name}", cf.cls.node.lineno), f"listop:{name}",
                       f"list operation {name} has no reference sequence in the shape analysis")
